@@ -251,7 +251,8 @@ let () =
             let d = d_document sd in
             print_string id; print_char '\t';
             print_string (if valid d then "{\"valid\":true," else "{\"valid\":false,");
-            print_string (if known_C16_null_plain_string d then "\"known\":true}" else "\"known\":false}");
+            print_string (if known_C16_null_plain_string d then "\"known\":true," else "\"known\":false,");
+            print_string (if known_C16_null_forbidden_field d then "\"known2\":true}" else "\"known2\":false}");
             print_char '\n'
 SPEC*)
         | _ -> raise (Bad "unknown case form")
